@@ -321,8 +321,9 @@ def build(spec, log, asynchronous, consumer_modes=None, faults=None, wrap_fn=Non
                     # accumulate's state is a digest, not data in flight: the failing
                     # invocation processes its current input only
                     args = a[-1:] if spec["nodes"][_i]["k"] == "accumulate" else a
-                    log.add("fx", _i, c, _prov(args))
-                    raise Boom(("f", _i, c))
+                    ex = Boom(("f", _i, c))
+                    log.add("fx", _i, c, _prov(args), ex)
+                    raise ex
                 return _f(*a, **k)
             g.__name__ = name
             f = g
@@ -334,7 +335,10 @@ def build(spec, log, asynchronous, consumer_modes=None, faults=None, wrap_fn=Non
         k, p = nd["k"], nd["p"]
         ups = [b.nodes[j] for j in nd["u"]]
         if k == "entry":
-            s = Stream(asynchronous=True) if asynchronous else Stream()
+            if asynchronous == "thread":
+                s = Stream(asynchronous=False)  # loop in the shared background thread
+            else:
+                s = Stream(asynchronous=True) if asynchronous else Stream()
         elif k == "map":
             s = ups[0].map(fn(i, p["f"]))
         elif k == "starmap":
